@@ -6,7 +6,7 @@ PROPERTY = 'C01'
 LEVEL = 'proof'
 
 def run(ctx):
-    ok = ctx.lean(['AmcVerif.Props.C01', 'AmcVerif.Props.C01b', 'AmcVerif.Props.C01c', 'AmcVerif.Props.C01d'], extra_modules=['AmcVerif.Bridge.VecGlueBridge', 'AmcVerif.Bridge.VecHelpersBridge'])
+    ok = ctx.lean(['AmcVerif.Props.C01', 'AmcVerif.Props.C01b', 'AmcVerif.Props.C01c', 'AmcVerif.Props.C01d', 'AmcVerif.Props.C01e'], extra_modules=['AmcVerif.Bridge.VecGlueBridge', 'AmcVerif.Bridge.VecHelpersBridge', 'AmcVerif.Bridge.VecAccessBridge'])
     n = 60 if ctx.tier == 'quick' else 400
     if not ok:
         n *= 3          # a proof / translation obligation broke: search harder for a concrete failing history
